@@ -125,15 +125,19 @@ cmd_fit(const char *topcmd, const ESL_SUBCMD *sub, int argc, char **argv)
   char           *outfile = esl_opt_GetArg(go, 4);                     // mixture Dirichlet file output
   ESL_FILEPARSER *efp     = NULL;                                      // open fileparser for reading                                                
   FILE           *ofp     = NULL;                                      // open output file for writing
-  ESL_MIXDCHLET  *dchl    = esl_mixdchlet_Create(Q,K);                 // mixture Dirichlet being estimated
+  ESL_MIXDCHLET  *dchl    = NULL;                                      // mixture Dirichlet being estimated
   int             Nalloc  = 1024;                                      // initial allocation for ct[]
-  double        **ct      = esl_mat_DCreate(Nalloc, K);                // count vectors, [0..N-1][0..K-1]
+  double        **ct      = NULL;                                      // count vectors, [0..N-1][0..K-1]
   int             N       = 0;                                         // number of count vectors so far
   char           *tok     = NULL;
   int             toklen  = 0;
   int             a;
   double          nll;
   int             status;
+
+  if (Q < 1 || K < 1) esl_fatal("<Q> and <K> must be positive integers");
+  dchl = esl_mixdchlet_Create(Q,K);
+  ct   = esl_mat_DCreate(Nalloc, K);
 
   if ( esl_fileparser_Open(ctfile, NULL, &efp) != eslOK)  esl_fatal("failed to open %s for reading", ctfile);
   if (( ofp = fopen(outfile, "w"))             == NULL)   esl_fatal("failed to open %s for writing", outfile);
@@ -243,8 +247,8 @@ static ESL_OPTIONS gen_options[] = {
   /* name           type      default  env  range toggles reqs incomp  help                                   docgroup*/
   { "-h",    eslARG_NONE,   FALSE,  NULL, NULL,  NULL,  NULL, NULL, "show brief help on version and usage",         0 },
   { "-s",    eslARG_INT,      "0",  NULL, NULL,  NULL,  NULL, NULL, "set random number seed",                       0 },
-  { "-M",    eslARG_INT,    "100",  NULL, NULL,  NULL,  NULL, NULL, "number of counts per vector",                  0 },
-  { "-N",    eslARG_INT,   "1000",  NULL, NULL,  NULL,  NULL, NULL, "number of countvectors to generate",           0 },
+  { "-M",    eslARG_INT,    "100",  NULL, "n>0",  NULL,  NULL, NULL, "number of counts per vector",                  0 },
+  { "-N",    eslARG_INT,   "1000",  NULL, "n>0",  NULL,  NULL, NULL, "number of countvectors to generate",           0 },
   {  0, 0, 0, 0, 0, 0, 0, 0, 0, 0 },
 };
 
@@ -304,8 +308,8 @@ static ESL_OPTIONS sample_options[] = {
   /* name           type      default  env  range toggles reqs incomp  help                                   docgroup*/
   { "-h",    eslARG_NONE,   FALSE,  NULL, NULL,  NULL,  NULL, NULL, "show brief help on version and usage",         0 },
   { "-s",    eslARG_INT,      "0",  NULL, NULL,  NULL,  NULL, NULL, "set random number seed",                       0 },
-  { "-K",    eslARG_INT,     "20",  NULL, NULL,  NULL,  NULL, NULL, "alphabet size",                                0 },
-  { "-Q",    eslARG_INT,      "9",  NULL, NULL,  NULL,  NULL, NULL, "number of mixture components",                 0 },
+  { "-K",    eslARG_INT,     "20",  NULL, "n>0",  NULL,  NULL, NULL, "alphabet size",                                0 },
+  { "-Q",    eslARG_INT,      "9",  NULL, "n>0",  NULL,  NULL, NULL, "number of mixture components",                 0 },
   {  0, 0, 0, 0, 0, 0, 0, 0, 0, 0 },
 };
 
